@@ -8,19 +8,24 @@ statement's own clauses contradict each other for overlapping genes).
 from __future__ import annotations
 
 import itertools
-from typing import Any, Dict, Iterator, List
+from typing import Any, Dict, List
 
 from . import _c03_check as chk
 from . import _c03_known as known
 
-RULE = ("cases = gene layouts built from gap sequences (overlap, touching, cutoff-1, cutoff, cutoff+1 for "
-        "each cutoff in the ruleset, far) x lead/tail offsets around the neighbourhood on linear records, and "
-        "x origin positions (at a gene start, one base inside a gene, at a gene end, mid-gap) on circular ones; "
-        "x hit patterns over profiles a,b,c x rulesets of 1-4 rules (mixed cutoffs/neighbourhoods, "
-        "SUPERIORS, EXTENDERS, and/or/cds/minimum/not conditions). quick enumerates the listed families "
-        "completely; thorough enumerates larger menus and then samples seeded random layouts. "
-        "non-trivial = some rule has two anchoring genes whose separation is within cutoff+-1 or that are "
-        "chained across the origin; distinct = distinct (record, hits, ruleset).")
+RULE = ("cases = gene layouts built from gap sequences (overlap, nested / same start / same end, touching, "
+        "cutoff-1, cutoff, cutoff+1 for each cutoff of the ruleset, far) of 2-4 (thorough: 5) genes on both "
+        "strands x lead/tail offsets around the neighbourhoods on linear records, and x origin positions (at a "
+        "gene start, one base inside a gene, at a gene end, mid-gap; genes spanning the origin) on circular ones "
+        "x hit patterns over profiles a,b,c x rulesets of 2-4 rules built by the real parser (mixed cutoffs and "
+        "neighbourhoods, SUPERIORS, EXTENDERS, single / and / or / cds / minimum / not conditions). quick "
+        "enumerates the listed families completely; thorough enumerates wider menus and more origins and then "
+        "samples seeded random layouts, cutoffs 1-9 and neighbourhoods 1-8. Oracle = set-of-bases model "
+        "(components of 'separated by less than the cutoff', complement of the largest gap, widening by the "
+        "neighbourhood). A clause name carries a [suffix] when the input of the check lies in the input class "
+        "of a known finding (decided from the input only). non-trivial = some rule has two anchoring genes whose "
+        "separation is within cutoff+-1 or that are chained across the origin; distinct = distinct "
+        "(record, hits, ruleset).")
 EXHAUSTIVE = {"quick": True, "thorough": False}
 
 C1, C2 = 3, 6      # the two cutoffs used by the menus (bases)
